@@ -354,11 +354,17 @@ Definition opt_color (o : option mcolor) (dflt : Z) : res Z :=
   | None => Ok dflt
   end.
 
-(* WriteDisplayTileNew(t, W, H, shrink, border) for W, H >= 0 *)
-Definition tile (t : mtext) (W H shrink border : Z) : res img :=
+(* the renderer proper, on a state whose sub-messages have been filled in *)
+Definition tile_filled (t : mtext) (W H shrink border : Z) : res img :=
   do bg <- opt_color (x_bg t) 0;
   do pc <- opt_color (x_pix t) 65535;
   Ok (run_ops (with_colors (new_image W H) bg pc) (tile_ops t W H shrink border)).
+
+(* WriteDisplayTileNew(t, W, H, shrink, border) for W, H >= 0: first fills the absent
+   sub-messages of its argument (lines 308-319; the caller's object is [fill_text t]
+   afterwards), then renders *)
+Definition tile (t : mtext) (W H shrink border : Z) : res img :=
+  tile_filled (fill_text t) W H shrink border.
 
 (* GetImgSliceRGB, monogfx.go:150-175 *)
 Definition rgb_slice (i : img) : list Z :=
